@@ -15,7 +15,30 @@ func Generate(r *sim.Rng, prop, tier string, idx int) *sim.Case {
 		c.Sched.PCTLen = 200
 	}
 	// geometry
+	hugeOdds := 2500
+	if tier == "thorough" {
+		hugeOdds = 400
+	}
 	switch {
+	case r.Chance(1, hugeOdds):
+		// a block size that is a multiple of the page size but not a power of two: one
+		// segment of 1.2 GB of address space of which only the header is ever touched
+		c.Mode = "huge"
+		c.Knobs["bs"] = 12288
+		c.Knobs["segments"] = 1
+		c.Knobs["fit"] = 1
+		task := sim.Task{Name: "t0"}
+		n := 33000 + r.Intn(20000)
+		for i := 0; i < n; i++ {
+			task.Ops = append(task.Ops, sim.Op{K: "arrange"})
+		}
+		for k := 0; k < 3; k++ {
+			task.Ops = append(task.Ops, sim.Op{K: "free", S: "own", N: int64(20000 + r.Intn(n-20000))})
+			task.Ops = append(task.Ops, sim.Op{K: "arrange"})
+		}
+		c.Tasks = []sim.Task{task}
+		c.Sched.MaxSteps = 3000000
+		return c
 	case r.Chance(1, 8):
 		c.Mode = "invalid"
 		c.Knobs["bs"] = int64(sim.Pick(r, 0, 3, 6, 100, 4097, -1, -8, -4096, 5, 12))
